@@ -577,7 +577,13 @@ class _Table:
         return k in self.table
 
     def __getitem__(self, k):
-        return self.pe.const(self.table[k])
+        v = self.table[k]
+        try:
+            return self.pe.const(v)
+        except KeyError:
+            if isinstance(v, ast.Call):
+                return FnVal(v)        # e.g. functools.partial(g, k=k): a function value given by an expression
+            raise
 
     def __bool__(self):
         return bool(self.table)
@@ -704,6 +710,10 @@ class _Beta(ast.NodeTransformer):
         if isinstance(f, (ast.Name, ast.Attribute)):
             return node
         fv = None
+        # functools.partial(g, a, k=v)(x)   is   g(a, x, k=v)
+        if isinstance(f, ast.Call) and (self.pe.m.dotted(f.func) or '') in ('functools.partial', 'partial') and f.args and not any(isinstance(x, ast.Starred) for x in f.args) and all(k.arg for k in f.keywords):
+            merged = ast.Call(func=copy.deepcopy(f.args[0]), args=[copy.deepcopy(x) for x in f.args[1:]] + node.args, keywords=[copy.deepcopy(k) for k in f.keywords if k.arg not in {q.arg for q in node.keywords}] + node.keywords)
+            return self.visit_Call(ast.copy_location(merged, node)) if not isinstance(merged.func, (ast.Name, ast.Attribute)) else ast.copy_location(merged, node)
         if isinstance(f, ast.Lambda):
             fv = FnVal(f)
         elif isinstance(f, (ast.Call, ast.Subscript)):
@@ -719,6 +729,9 @@ class _Beta(ast.NodeTransformer):
                 return node
             return _Subst({p.arg: v for p, v in zip(a.args, node.args)}).visit(copy.deepcopy(fv.node.body))
         node.func = copy.deepcopy(fv.node)
+        if isinstance(node.func, (ast.Call, ast.Lambda)) and not getattr(node, '_beta_again', False):
+            node._beta_again = True
+            return self.visit_Call(node)       # e.g. a table entry functools.partial(g, k=k): now applied
         return node
 
 
@@ -763,6 +776,12 @@ class PathEval:
             return e.value
         if self.pred(e):
             return self.value
+        if isinstance(e, ast.Name) and e.id in self.env and isinstance(self.env[e.id], ast.Dict) and self.env[e.id].keys and all(isinstance(k, ast.Constant) for k in self.env[e.id].keys) \
+                and not any(nm == e.id and sq > getattr(self.env[e.id], '_seq', -1) for sq, nm in getattr(self, '_mut_log', [])):
+            # a local dispatch table (dict literal with constant keys) that nothing has written to since it was built
+            return _Table({k.value: v for k, v in zip(self.env[e.id].keys, self.env[e.id].values)}, self)
+        if isinstance(e, ast.Dict) and e.keys and all(isinstance(k, ast.Constant) for k in e.keys):
+            return _Table({k.value: v for k, v in zip(e.keys, e.values)}, self)
         if isinstance(e, ast.Name) and e.id in self.env and self.env[e.id] is not None and not (isinstance(self.env[e.id], ast.Name) and self.env[e.id].id == e.id):
             if isinstance(self.env[e.id], (ast.Dict, ast.List, ast.Set, ast.ListComp, ast.DictComp, ast.SetComp)) or (isinstance(self.env[e.id], ast.Call) and isinstance(self.env[e.id].func, ast.Name) and self.env[e.id].func.id in ('dict', 'list', 'set', 'defaultdict', 'Counter', 'deque')):
                 raise KeyError(e.id)      # a local mutable container: its contents at this point are not its initial contents
@@ -1807,6 +1826,15 @@ def _walk_term(t):
             yield from _walk_term(x)
 
 
+DISTINCT_FAMILIES = [
+    {'sum', 'mean', 'median', 'max', 'min', 'prod', 'average', 'nansum', 'nanmean', 'nanmedian', 'std', 'var', 'amax', 'amin', 'ptp'},
+    {'sin', 'cos', 'tan', 'arcsin', 'arccos', 'arctan', 'sinh', 'cosh', 'tanh', 'arcsinh', 'arccosh', 'arctanh'},
+    {'floor', 'ceil', 'round', 'trunc', 'rint', 'around'},
+    {'log', 'log2', 'log10', 'log1p', 'exp', 'exp2', 'expm1', 'sqrt', 'square', 'abs'},
+    {'argmax', 'argmin', 'argsort'},
+]
+
+
 def within_vocabulary(found, accepted) -> bool:
     """True when `found` applies only operations that occur in some accepted form: a mismatch is then a real difference of the
     computed value; False when it uses operations the accepted forms never use (an unknown spelling: not decidable here)."""
@@ -1815,4 +1843,8 @@ def within_vocabulary(found, accepted) -> bool:
         known |= term_vocab(a)
     if 'len' in known:
         known |= {'shape', 'size'}      # x.shape[0] is canonicalised to len(x): other uses of shape / size are within the vocabulary
+    # operations that are known to differ from the accepted one (another reduction, another trigonometric function, ...) are a real difference
+    for fam in DISTINCT_FAMILIES:
+        if known & fam:
+            known |= fam
     return term_vocab(found) <= known
